@@ -325,6 +325,43 @@ pub fn run(run: &Run) {
             }
         }
     });
+    // 3a. predict on long, exactly uniform grids with non-dyadic coefficients: the value of the polynomial at every point
+    for d in 0..=6usize {
+        for &(npts, lo, step) in &[(100usize, -2.0, 0.04), (1025, -2.0, 1.0 / 256.0), (4097, 0.0, 1.0 / 1024.0), (2000, -5.0, 0.005), (33, -1.0, 0.0625)] {
+            let xs: Vec<f64> = (0..npts).map(|i| lo + i as f64 * step).collect();
+            let c: Vec<f64> = (0..=d).map(|k| [0.3, -1.1, 0.7, 0.25, -0.123456789, 1.0 / 3.0, -0.05][k] * if k % 2 == 0 { 1.0 } else { 1.7 }).collect();
+            run.case();
+            run.tr();
+            run.ok();
+            run.nontrivial(1);
+            let mut pr = PolynomialRegressor::new(d);
+            pr.coef = c.clone();
+            match guard(|| pr.predict(&xs)) {
+                Ok(v) if v.len() == npts => {
+                    let mut worst = (0.0f64, 0usize, 0.0, 0.0);
+                    for (i, x) in xs.iter().enumerate() {
+                        let mut acc = DD::ZERO;
+                        let mut mag = 0.0f64;
+                        for k in (0..=d).rev() {
+                            acc = acc * DD::new(*x) + DD::new(c[k]);
+                            mag = mag * x.abs() + c[k].abs();
+                        }
+                        let err = (v[i] - acc.f()).abs() / (mag.max(1e-300));
+                        if err > worst.0 {
+                            worst = (err, i, v[i], acc.f());
+                        }
+                    }
+                    if worst.0 > 64.0 * (d as f64 + 2.0) * U {
+                        run.violate("predict/not-the-polynomial/long-uniform-grid", || format!("degree {} coefficients {:?} on {} points from {} step {}: point #{} gives {:e}, the polynomial is {:e} (relative to sum |c_k||x|^k: {:e})", d, c, npts, lo, step, worst.1, worst.2, worst.3, worst.0));
+                    } else {
+                        run.regime("predict-long-uniform-grid");
+                    }
+                }
+                Ok(v) => run.violate("predict/length", || format!("{} predictions for {} points", v.len(), npts)),
+                Err(p) => run.violate("predict/panic", || format!("degree {} on {} points: {}", d, npts, p)),
+            }
+        }
+    }
     // 3. predict = c0 + c1 x + ... + cd x^d exactly (dyadic inputs, small integer coefficients)
     let px: Vec<f64> = vec![-2.0, -1.5, -1.0, -0.25, 0.0, 0.5, 1.0, 1.75, 2.0, 3.0];
     for d in 0..=6usize {
